@@ -250,6 +250,9 @@ func (g *c10g) genMain() {
 	}
 	add("}", "")
 	add("sub usub {", "  set req.http.U-Called = \"yes\";", "}", "")
+	// a runtime error one call statement below the subroutine a test invokes (valid in DELIVER only)
+	add("// @scope: deliver", "sub c10_rt_inner {", "  set resp.http.X-Rt-Inner = \"1\";", "}", "")
+	add("// @scope: deliver", "sub c10_rt_outer {", "  call c10_rt_inner;", "  set req.http.Rt-Outer = \"after\";", "}", "")
 
 	// functional subroutine
 	nArms := g.intn(1, 3, "ufarms")
@@ -999,9 +1002,9 @@ func (b *c10Body) directString(hold bool) {
 func (b *c10Body) runtimeError(allowScoped bool) {
 	g := b.g
 	kinds := []string{"call-undefined-via-testing", "call-undefined-statement", "undeclared-local", "undefined-function",
-		"undefined-table", "call-arg-count", "table_set-unknown-table", "mock-unknown-sub", "scoped-variable"}
+		"undefined-table", "call-arg-count", "table_set-unknown-table", "mock-unknown-sub", "scoped-variable", "scoped-variable-below-call", "scoped-variable-below-call", "scoped-variable-below-call"}
 	k := g.pickS(kinds, "rtkind")
-	if k == "scoped-variable" && !allowScoped {
+	if (k == "scoped-variable" || k == "scoped-variable-below-call") && !allowScoped {
 		k = "call-undefined-via-testing"
 	}
 	b.runtimeErrorKind(k)
@@ -1028,6 +1031,12 @@ func (b *c10Body) runtimeErrorKind(k string) {
 		b.add(fmt.Sprintf("testing.table_set(nosuch_table_%d, \"a\", \"b\");", id))
 	case "mock-unknown-sub":
 		b.add(fmt.Sprintf("testing.mock(\"nosuch_sub_%d\", \"nosuch_mock_%d\");", id, id))
+	case "scoped-variable-below-call":
+		// the failing statement sits in a subroutine entered through a call statement of the invoked subroutine
+		b.add("testing.call_subroutine(\"c10_rt_outer\");")
+		b.failIn("runtime:"+k, func(sc string) bool { return sc != "deliver" })
+		// (no statement behind it that fails on its own where the call fails: a swallowed error must show)
+		return
 	case "scoped-variable":
 		// resp.http.* exists in DELIVER only, beresp.http.* in FETCH only (of the scopes used here)
 		v, okScope := "resp.http", "deliver"
